@@ -338,6 +338,29 @@ def _on_alarm(sig, frame):
     raise HarnessTimeout()
 
 
+_fn_caches = {"n": -1, "objs": []}
+
+
+def clear_function_caches():
+    """A real `cond` is a fresh process; here one process runs thousands of commands: memoised functions (functools.cache /
+    lru_cache) of the code under test must not carry results from one command into the next."""
+    mods_ = [m for n, m in list(sys.modules.items()) if n == "conductor" or n.startswith("conductor.")]
+    if len(mods_) != _fn_caches["n"]:
+        objs = []
+        for m in mods_:
+            for v in list(vars(m).values()):
+                if callable(getattr(v, "cache_clear", None)):
+                    objs.append(v)
+                elif isinstance(v, type):
+                    for w in list(vars(v).values()):
+                        w = getattr(w, "__func__", w)
+                        if callable(getattr(w, "cache_clear", None)):
+                            objs.append(w)
+        _fn_caches.update(n=len(mods_), objs=objs)
+    for o in _fn_caches["objs"]:
+        o.cache_clear()
+
+
 def run_cli(argv, cwd, *, vk=None, git=None, clock=None, env=None, tracer=None, real_processes=False, timeout=None):
     """
     Run `cond <argv>` in-process with cwd.  vk: a vkmod.VK (virtual processes) or None (no process seam:
@@ -345,6 +368,7 @@ def run_cli(argv, cwd, *, vk=None, git=None, clock=None, env=None, tracer=None, 
     (fake git) or None for the real one.  clock: Clock.  Returns Result.
     """
     m = mods()
+    clear_function_caches()
     res = Result()
     res.vk = vk
 
